@@ -6,8 +6,10 @@ import (
 	"path/filepath"
 	"sync"
 	"testing"
+	"time"
 
 	"github.com/jamespfennell/gtfs"
+	"github.com/jamespfennell/gtfs/journal"
 	"pgregory.net/rapid"
 
 	"verifharness/rgen"
@@ -34,7 +36,7 @@ type CaseC18 struct {
 var c18Rec = vt.NewRecorder("C18", "TestC18",
 	"generated workloads: 2-4 inputs (realtime messages with elevator alerts / NYCT trips / plain, and static feeds; the byte buffers are shared), ONE shared options value per case for every bundled extension configuration "+
 		"(Extension nil, explicit no-op, NYCT trips, NYCT alerts), 4-16 goroutines x 2-8 calls each in a generated assignment, started together; then a second phase in which every goroutine hashes trips and vehicles, walks Root() "+
-		"and normalises results returned by OTHER goroutines. Oracle: built with the race detector (any report, 'concurrent map' fatal error or panic is a violation) and every call's normal form equals the sequential reference computed beforehand with fresh equivalent options. "+
+		"normalises, and builds + exports a journal from results returned by OTHER goroutines. Oracle: built with the race detector (any report, 'concurrent map' fatal error or panic is a violation) and every call's normal form equals the sequential reference computed beforehand with fresh equivalent options. "+
 		"Non-trivial = >=2 goroutines share the options value and an input touches extension state (elevator alerts, NYCT trips) or the nil-extension path")
 
 func init() { registerReplay("C18", "TestC18", checkC18Replay) }
@@ -161,6 +163,12 @@ func checkC18(c CaseC18) error {
 							res.st.Stops[i].Root()
 						}
 						js = sgen.JS(sgen.Normalize(res.st))
+					}
+					if res.rt != nil {
+						// building and exporting a journal from a feed parsed by another goroutine only reads it
+						// (and shares the package-level export templates)
+						j := journal.BuildJournal(&sliceSource{feeds: []*gtfs.Realtime{res.rt, res.rt}}, time.Time{}, time.Unix(1<<60, 0))
+						j.ExportToCsv()
 					}
 					if js != ref[res.input] {
 						errs[g] = vt.FailSig("concurrent-differs", "extension %+v: input %d parsed concurrently (by goroutine %d) differs from the sequential parse: %s", c.Ext, res.input, other, rgen.FirstDiff(js, ref[res.input]))
